@@ -1,7 +1,7 @@
 // unit float_error_bounds_halfeven: float/src/round.rs `impl ErrorBounds for mode::HalfEven` against the same contract as
-// unit float_error_bounds (C18).  NOT REGISTERED: the contract FAILS on the unchanged tree -- `incl = significand.bit(0)`
-// makes the bounds inclusive for an ODD last digit, the definition of ties-to-even makes them inclusive for an EVEN one
-// (natively: FBig<HalfEven, 10> 0.13 with precision 2 -> simplest_from_float = 1/8 = 0.125, which rounds to 0.12).
+// unit float_error_bounds (C18): the bounds are inclusive iff the last digit of f at its precision is even.
+// (Before fix S3 `incl = significand.bit(0)` had the parity inverted and this contract failed: FBig<HalfEven, 10> 0.13 with
+// precision 2 -> simplest_from_float = 1/8 = 0.125, which rounds to 0.12.)
 #![allow(unused_imports, unused_variables, dead_code, non_snake_case, unused_mut, unused_parens, unused_braces)]
 use vstd::prelude::*;
 verus! {
